@@ -71,6 +71,7 @@ namespace vf
     {
         static constexpr const char* name    = "grow";
         static constexpr bool        growing = true;
+        static constexpr std::size_t max_block = std::size_t(1) << 30;
         using arg                            = probe_raw;
         probe_handle h                       = make_probe("raw", true);
         template <class A, class... X>
@@ -117,6 +118,7 @@ namespace vf
     {
         static constexpr const char* name    = "blk";
         static constexpr bool        growing = true;
+        static constexpr std::size_t max_block = std::size_t(1) << 30;
         using arg                            = probe_block;
         probe_handle h                       = make_probe("blk", true);
         template <class A, class... X>
@@ -158,7 +160,8 @@ namespace vf
         static constexpr const char* name    = "static";
         static constexpr bool        growing = true; // until the storage is exhausted
         using arg                            = probe_wrap<fm::static_block_allocator>;
-        static constexpr std::size_t storage_size = 64 * 1024;
+        static constexpr std::size_t storage_size = 256 * 1024;
+        static constexpr std::size_t max_block    = 64 * 1024; // so that the storage holds at least four blocks
         std::unique_ptr<fm::static_allocator_storage<storage_size>> storage{new fm::static_allocator_storage<storage_size>};
         std::shared_ptr<wrap_state>  w = std::make_shared<wrap_state>();
         template <class A, class... X>
@@ -206,6 +209,7 @@ namespace vf
     {
         static constexpr const char* name    = "virtual";
         static constexpr bool        growing = true; // until the reserved pages are used up
+        static constexpr std::size_t max_block = std::size_t(1) << 30;
         using arg                            = probe_wrap<fm::virtual_block_allocator>;
         std::shared_ptr<wrap_state>  w = std::make_shared<wrap_state>();
         std::size_t                  no_blocks = 6;
@@ -343,5 +347,31 @@ namespace vf
         slot.mem     = where;
         slot.own_mem = false;
         return where;
+    }
+
+    // which cases count as non-trivial for the property a history harness is run for (flags are set by the engines)
+    inline bool history_rule(const std::set<std::string>& f)
+    {
+        auto& p   = cx().prop;
+        auto  has = [&](const char* x) { return f.count(x) != 0; };
+        if (p == "C04")
+            return has("release") && (has("uneven-array") || has("array-delta") || has("cycle") || has("drain"));
+        if (p == "C05")
+            return has("grow") || has("move") || has("cache-reuse");
+        if (p == "C06")
+            return has("unwind") && (has("replay") || has("unwind-across-blocks"));
+        if (p == "C07")
+            return has("wrap") && has("multi-live");
+        if (p == "C12")
+            return has("move");
+        if (p == "C15")
+            return has("release") && (has("leak") || has("move"));
+        if (p == "C18")
+            return (has("grow") && has("release")) || has("capacity-exact");
+        if (p == "C03")
+            return has("exhausted") || has("grow");
+        if (p == "C02")
+            return has("multi-live") && (has("overaligned") || has("grow") || has("release"));
+        return has("multi-live") && (has("release") || has("unwind") || has("wrap"));
     }
 } // namespace vf
